@@ -9,7 +9,8 @@ def sh(cmd, cwd=None):
 
 def imp(prop, x, needs, confirmed):
     src = os.environ.get('SEEDROOT','/tmp/seedwt') + f'/{prop}/SEED_OUT'
-    dst = f'{V}/seeded/{prop}-{x}'
+    sid = os.environ.get('SEEDID', x)  # stored id letter (round 2 uses C/D so round-1 A/B are kept)
+    dst = f'{V}/seeded/{prop}-{sid}'
     os.makedirs(dst, exist_ok=True)
     shutil.copy(f'{src}/{x}.patch.diff', f'{dst}/patch.diff')
     if os.path.isdir(f'{src}/{x}.demo'):
@@ -17,7 +18,7 @@ def imp(prop, x, needs, confirmed):
         shutil.copytree(f'{src}/{x}.demo', f'{dst}/demo')
     if os.path.exists(f'{src}/{x}.meta.txt'):
         shutil.copy(f'{src}/{x}.meta.txt', f'{dst}/author_notes.txt')
-    meta = {"id": f"{prop}-{x}", "property": prop, "author": "independent sub-agent (saw only the property text and a scratch worktree)",
+    meta = {"id": f"{prop}-{sid}", "property": prop, "author": "independent sub-agent (saw only the property text and a scratch worktree)",
             "needs": needs, "ran": confirmed, "detected_by": []}
     json.dump(meta, open(f'{dst}/meta.json', 'w'), indent=1)
 
